@@ -1,4 +1,32 @@
 TEXT = {
+ "C01": {
+  "text": "Proved in Coq (Properties/C01.v): for every byte string longer than 14 bytes and every resolver outcome the per-request function "
+          "`serve` yields exactly one reply; it is the upstream message cut by the C05 rule (UDP; every byte but byte 2 unchanged) or framed "
+          "(TCP) when a message of 1..65535 bytes arrived, and `servfail q` (ID, QR, RCODE=2, the question re-encoded) otherwise. The concurrent "
+          "half (buffers never shared between in-flight handlers, frames never interleaved) is proved on the Handler LTS (Properties/C04.v / C01 "
+          "section there) when present. Tie: the real proxy on loopback, sequential and concurrent/pipelined clients with a rendezvous upstream; "
+          "every reply compared byte-for-byte with the extracted model and judged by the extracted c01_ok spec.",
+  "note": "Trusted: Coq kernel, extraction, driver, harness with fake upstream. Assumes upstream echoes ID/question; single Write atomic; Go runtime/net not modelled.",
+  "technique": "Coq proof over the parser/reply model + differential correspondence check against the live proxy (sequential and concurrent)",
+ },
+ "C02": {
+  "text": "Proved in Coq (Properties/C02.v) for every byte string of any length: the model of query.New (dnsmessage parser state machine, name "
+          "decompression with Go's pointer budget, option walk, ECS rewriting) terminates within its loop bounds and never indexes out of range "
+          "(no OutOfFuel, no Panic), and `serve` answers every message longer than 14 bytes exactly once. The pre-repair loop is kept as a mutant "
+          "with a proof that it has no bound (C02_spin_refuted; defect F1, fixed in /repo). Tie: query.New run in a watchdog sub-process and the "
+          "live proxy on structured + mutated + random inputs; all parsed fields, rewritten payload and replies compared with the extracted model.",
+  "note": "Trusted: Coq kernel, extraction, driver, harness. The Go runtime, net and the ipv4/ipv6 control message code are not modelled.",
+  "technique": "Coq proof (invariants of the parser state machine, fuel sufficiency, structural recursion) + differential correspondence check with spin/crash watchdog",
+ },
+ "C13": {
+  "text": "Proved in Coq (Properties/C13.v): nutterECSOption keeps the payload length, changes no byte outside the rewritten option, turns an option "
+          "that lies inside the payload into code 0xFFFF with all-zero data, is memory-safe for every offset, and the option loop touches only "
+          "payload/peer/MAC. Tie: rewritten payload, PeerIP and MAC from the real query.New and the bytes the upstream really receives through the "
+          "live proxy, compared with the extracted model and judged by the extracted c13_ok spec (no address-carrying ECS left; differing bytes "
+          "only inside such options).",
+  "note": "Trusted: Coq kernel, extraction, driver, harness. The statement over whole encoded queries (parser located the options) rests on the correspondence check for the parser part.",
+  "technique": "Coq proof about the in-place rewrite + differential correspondence check on option-heavy queries",
+ },
  "C05": {
   "text": "Proved in Coq for all pairs (advertised size 0..65535, upstream length 1..65535): datagram length <= max(512, advertised), "
           "shortened => TC set, fits => full length, every byte other than byte 2 is the upstream's, TCP frame = correct 2-byte prefix + whole message "
